@@ -57,10 +57,15 @@ static void capture(const struct iovec* v, int n, size_t m) {
   }
 }
 
+static void peer_drain(int wait_ms, size_t want);
+
 /* one scripted call: returns bytes to accept, or -1 with errno set */
 static ssize_t scripted(const char* kind, const struct iovec* v, int n, const struct msghdr* msg) {
   size_t total = iov_total(v, n), m;
   int fd = msg != NULL && msg->msg_controllen > 0;
+  /* keep the peer's receive queue empty: a unix socket stops polling writable after ~70 unread
+   * tiny packets (skb overhead), and POLLOUT must stay deliverable whenever libuv arms it */
+  { int e = errno; peer_drain(0, 0); errno = e; }
   if (envh < envt && !env[envh].ok) {
     long e = env[envh++].v;
     if (!quiet) printf("sys %s %d %zu %ld%s\n", kind, n, total, -e, fd ? " fd" : "");
@@ -321,6 +326,7 @@ int main(void) {
       if (sscanf(line + 7, "%u %n", &k, &pos) >= 1 && k < MAXK) { free(script[k]); script[k] = strdup(line + 7 + pos); }
       else printf("bad-op\n");
     } else if (!strcmp(line, "run")) {
+      peer_drain(0, 0);
       uv_run(&loop, UV_RUN_NOWAIT);
       printf("ran wqs=%zu\n", uv_stream_get_write_queue_size(&h.s));
     } else if (!strcmp(line, "end")) {
